@@ -121,6 +121,11 @@ func C06(r *vf.Run) {
 				capacity = 0x10100
 			} else {
 				calls, base, dist = genHistory(g, histOpts{maxCalls: 400, listing: listing, withRefs: true, withDup: true})
+				if g.Intn(10) == 0 {
+					if fl := flushToBankEnd(g, calls, listing); fl != nil {
+						calls, base = fl, "ends-at-bank-end"
+					}
+				}
 			}
 			if g.Intn(3) != 0 {
 				// a target buffer exactly as large as the program (or with 1-3 spare bytes)
